@@ -275,6 +275,8 @@ class SetGen:
                 self.add_chain(mname, m, add, imp, pick_parent)
             if self.chains and mi > 0 and rng.random() < 0.5:
                 self.add_clash(mname, m, add, imp, pick_parent)
+            if self.families and rng.random() < 0.4:
+                self.add_family(mname, m, add, imp, pick_parent)
             rng.shuffle(m['decls']) if rng.random() < 0.7 else None
         return self
 
@@ -315,6 +317,30 @@ class SetGen:
             add({'kind': 'objectType', 'name': self.names.fresh(), 'syntax': syn, 'units': None, 'access': 'read-only',
                  'status': 'current', 'description': self.text(), 'reference': None, 'oidparts': parts, 'defval': dv}, oid,
                 nodetype='scalar', syntax=syn, chain_base=resolved)
+
+    families = True
+
+    def add_family(self, mname, m, add, imp, pick_parent):
+        """T1 ::= Tb, …, Tk ::= Tb declared before Tb ::= <base>: several forward references that become resolvable
+        at the same moment (the symbol pass must register them in source order whatever the hash seed)"""
+        rng = self.rng
+        k = rng.randint(2, 4)
+        tb = self.names.fresh(upper=True, hyphen_ok=False)
+        tnames = [self.names.fresh(upper=True, hyphen_ok=False) for _ in range(k)]
+        base = gen_syntax(rng, [])
+        while base['base'] == 'BITS' or 'enum' in base:
+            base = gen_syntax(rng, [])
+        if base['base'] in SMI_IMPORTABLE:
+            imp('SNMPv2-SMI', base['base'])
+        if base['base'] == 'DisplayString':
+            imp('SNMPv2-TC', 'DisplayString')
+        for tn in tnames + [tb]:
+            syn = base if tn == tb else {'base': tb, 'kind': base['kind'], 'user': True}
+            tc = rng.random() < 0.6
+            if tc:
+                imp('SNMPv2-TC', 'TEXTUAL-CONVENTION')
+            add({'kind': 'textualConvention' if tc else 'typeDecl', 'name': tn, 'syntax': syn, 'displayHint': None,
+                 'status': 'current', 'description': self.text(), 'reference': None}, None, syntax=syn, chain_base=base)
 
     def add_chain(self, mname, m, add, imp, pick_parent):
         """T1 ::= T2, …, Tk ::= <base>, plus an object of type T1: exercises chains of forward references"""
